@@ -182,6 +182,7 @@ func genCodec(t *rapid.T, smallMax bool) wire.Codec {
 	case "lf":
 		c.Width = rapid.SampledFrom([]int{1, 2, 4, 8}).Draw(t, "width")
 		c.Little = rapid.Bool().Draw(t, "little")
+		c.OwnOrder = rapid.IntRange(0, 3).Draw(t, "ownorder") == 0
 		if rapid.Bool().Draw(t, "plain") {
 			// the configuration the shipped encoder serves
 		} else {
@@ -195,6 +196,7 @@ func genCodec(t *rapid.T, smallMax bool) wire.Codec {
 	case "prep":
 		c.Width = rapid.SampledFrom([]int{1, 2, 4, 8}).Draw(t, "width")
 		c.Little = rapid.Bool().Draw(t, "little")
+		c.OwnOrder = rapid.IntRange(0, 3).Draw(t, "ownorder") == 0
 		c.IncLen = rapid.Bool().Draw(t, "inclen")
 		switch rapid.IntRange(0, 5).Draw(t, "adjk") {
 		case 0, 1:
